@@ -49,13 +49,15 @@ SCOPE = {
     ("C04", "quick"): dict(mc="Catalogs = {1, 2}  Limits = {0}  Daemons = {1}  Batches = {2, 7}  Laters = {0, 2}", mc_steps=7,
                            enum="Catalogs = {1}  Limits = {0}  Daemons = {1}  Batches = {2, 7}  Laters = {1}", enum_steps=4, enum_keep=300,
                            sim=500, sim_steps=14, explore=200),
-    ("C04", "thorough"): dict(mc="Catalogs = {1, 2, 3}  Limits = {0, 2, 4}  Daemons = {0, 1}  Batches = {1, 2, 3, 5, 7}  Laters = {0, 1, 2}", mc_steps=8,
+    ("C04", "thorough"): dict(mc="Catalogs = {1, 2, 3}  Limits = {0, 2, 4}  Daemons = {0, 1}  Batches = {2, 5, 7}  Laters = {0, 1, 2}", mc_steps=8, mc_foreign=False,
+                              mc2="Catalogs = {1, 2}  Limits = {0, 2}  Daemons = {1}  Batches = {2, 7}  Laters = {0, 2}", mc2_steps=7,
                               enum="Catalogs = {1, 2}  Limits = {0, 2}  Daemons = {1}  Batches = {2, 7}  Laters = {1}", enum_steps=5, enum_keep=4000,
                               sim=5000, sim_steps=16, explore=4000),
     ("C03", "quick"): dict(mc="Catalogs = {1, 3}  Limits = {2, 4, 5}  Daemons = {1}  Batches = {2, 6}  Laters = {0, 2}", mc_steps=6,
                            enum="Catalogs = {1}  Limits = {2, 3}  Daemons = {1}  Batches = {2}  Laters = {3}", enum_steps=4, enum_keep=150,
                            sim=300, sim_steps=12, explore=200, sim_scope="Catalogs = {1, 2, 3}  Limits = {1, 2, 3, 4, 5}  Daemons = {0, 1}  Batches = {1, 2, 3, 4, 5, 6, 7}  Laters = {0, 1, 2, 3}"),
-    ("C03", "thorough"): dict(mc="Catalogs = {1, 2, 3}  Limits = {1, 2, 3, 4, 5}  Daemons = {1}  Batches = {1, 2, 4, 6}  Laters = {0, 2, 3}", mc_steps=7,
+    ("C03", "thorough"): dict(mc="Catalogs = {1, 2, 3}  Limits = {1, 2, 3, 4, 5}  Daemons = {1}  Batches = {1, 2, 4, 6}  Laters = {0, 2, 3}", mc_steps=7, mc_foreign=False,
+                              mc2="Catalogs = {1, 3}  Limits = {2, 4, 5}  Daemons = {1}  Batches = {2, 6}  Laters = {0, 2}", mc2_steps=6,
                               enum="Catalogs = {1, 3}  Limits = {2, 3, 5}  Daemons = {1}  Batches = {2, 6}  Laters = {3}", enum_steps=5, enum_keep=3000,
                               sim=3000, sim_steps=16, explore=3000, sim_scope="Catalogs = {1, 2, 3}  Limits = {1, 2, 3, 4, 5}  Daemons = {0, 1}  Batches = {1, 2, 3, 4, 5, 6, 7}  Laters = {0, 1, 2, 3}"),
 }
@@ -72,8 +74,8 @@ def fix_maps(x, key=None):
     return x
 
 
-ALL_FORMS = "Resyncs = {FALSE, TRUE}  EphForms = {1, 2, 3, 4, 5, 6, 7}  StForms = {0, 1, 2}"
-ONE_FORM = "Resyncs = {FALSE}  EphForms = {2}  StForms = {2}"      # closed-model runs: the forms only show in the history (hidden by the VIEW)
+ALL_FORMS = "AllowForeign = TRUE  Resyncs = {FALSE, TRUE}  EphForms = {1, 2, 3, 4, 5, 6, 7}  StForms = {0, 1, 2}"
+ONE_FORM = "AllowForeign = TRUE  Resyncs = {FALSE}  EphForms = {2}  StForms = {2}"      # closed-model runs: the forms only show in the history (hidden by the VIEW)
 
 
 def write_cfg(run, name, scope, steps, spec_lines, forms=ONE_FORM):
@@ -109,9 +111,15 @@ def closed_models(run, prop):
 
     jobs = []
     if not skip:
-        write_cfg(run, "MultiPass_MC_run.cfg", sc["mc"], sc["mc_steps"], "SPECIFICATION Spec\nVIEW view\nINVARIANTS " + INVS)
+        # the main exhaustive run; in the thorough tier the foreign-create dimension (another controller stores a NodeClaim inside a
+        # batching window) is explored exhaustively in a second run on a sub-scope (mc2) and stays in every generated behaviour
+        forms = ONE_FORM if sc.get("mc_foreign", True) else ONE_FORM.replace("AllowForeign = TRUE", "AllowForeign = FALSE")
+        write_cfg(run, "MultiPass_MC_run.cfg", sc["mc"], sc["mc_steps"], "SPECIFICATION Spec\nVIEW view\nINVARIANTS " + INVS, forms=forms)
         jobs.append(("mc", lambda: run.closed_model("MultiPass", "MultiPass_MC_run.cfg", workers=4 if dev else 8, heap="4g" if dev else "8g",
-                                                    timeout=3000)))
+                                                    timeout=5400)))
+        if sc.get("mc2"):
+            write_cfg(run, "MultiPass_MC2_run.cfg", sc["mc2"], sc["mc2_steps"], "SPECIFICATION Spec\nVIEW view\nINVARIANTS " + INVS)
+            jobs.append(("mc2", lambda: run.closed_model("MultiPass", "MultiPass_MC2_run.cfg", workers=4, heap="4g", timeout=5400)))
         write_cfg(run, "MultiPass_Cov_run.cfg", "Catalogs = {1}  Limits = {2}  Daemons = {1}  Batches = {2}  Laters = {1}", 6,
                   "SPECIFICATION Spec\nVIEW view\nINVARIANTS " + INVS)
         jobs.append(("cov", lambda: run.tlc("MultiPass", "MultiPass_Cov_run.cfg", workers=2, coverage=True, timeout=1500, heap="3g")))
@@ -164,7 +172,7 @@ def complete(b):
 def generate(run, prop, rng):
     sc = SCOPE[(prop, run.tier)]
     dev = os.environ.get("VERIF_DEV")
-    write_cfg(run, "MultiPass_Enum_run.cfg", sc["enum"], sc["enum_steps"], "SPECIFICATION Spec\nINVARIANTS GenPrint", forms="Resyncs = {FALSE, TRUE}  EphForms = {2, 5}  StForms = {0, 2}")
+    write_cfg(run, "MultiPass_Enum_run.cfg", sc["enum"], sc["enum_steps"], "SPECIFICATION Spec\nINVARIANTS GenPrint", forms="AllowForeign = TRUE  Resyncs = {FALSE, TRUE}  EphForms = {2, 5}  StForms = {0, 2}")
     write_cfg(run, "MultiPass_Sim_run.cfg", sc.get("sim_scope", FULL), sc["sim_steps"], "SPECIFICATION Spec\nINVARIANTS GenPrint", forms=ALL_FORMS)
     with cf.ThreadPoolExecutor(max_workers=2) as ex:
         fe = ex.submit(lambda: run.generate("MultiPass", "MultiPass_Enum_run.cfg", workers=2 if dev else 4, timeout=2400, heap="4g"))
